@@ -316,5 +316,6 @@ pub fn prop() -> Prop {
         direct: Some(direct),
         selftest: Some(crate::rfc::selftest),
         fuzz: None,
+        insertion_order_stage: false,
     }
 }
